@@ -93,7 +93,12 @@ def try_seed(name, checks, tier="quick"):
             meta["applied_with"] = "git apply --3way (fix: commits touched the same file)"
         if not (ap.returncode == 0 and "conflict" not in (ap.stdout + ap.stderr).lower()):
             print(f"{name}: patch does not apply to the current tree (needs a manual rebase): {ap.stderr.strip()[:200]}")
+            # the recorded results stay (they are from the last tree the patch applied to) but are marked as such
+            head = sh("git -C /repo rev-parse --short HEAD").stdout.strip()
+            meta["stale"] = f"patch no longer applies to /repo at {head} (a later fix: commit rewrote the same lines); results are from the last tree it applied to"
+            json.dump(meta, open(os.path.join(d, "meta.json"), "w"), indent=1)
             return
+        meta.pop("stale", None)
         env = dict(os.environ, PYTHONPATH=f"{wt}/src", VERIF_OUT=out)
         for c in checks:
             t0 = time.time()
@@ -124,6 +129,8 @@ def table():
         cs = ", ".join(f"{c}:{'CAUGHT' if r['exit'] == 1 else ('miss' if r['exit'] == 0 else 'ERR')}"
                        for c, r in sorted(meta.get("checks", {}).items()))
         note = " [obsolete: no longer violates]" if meta.get("obsolete") else " [differential]" if meta.get("differential") else ""
+        if meta.get("stale"):
+            note += " [stale: patch needs a rebase onto the current tree]"
         print(f"{name:12s} {cs}{note}")
 
 
